@@ -100,6 +100,9 @@ def vectors(real, nfft):
     L = nb1(nfft) if real else nfft
     vs = [("e%d" % j, [7.0 if i == j else 0.0 for i in range(L)]) for j in range(L)]
     vs.append(("dense", [float((i + 1) ** 2) for i in range(L)]))
+    # a stored vector with negative entries (e.g. a correlogram with a rectangular lag window): the conversions are linear
+    # maps, which the basis vectors pin only if the implementation *is* linear -- a magnitude taken on the way is not
+    vs.append(("signed", [float((i + 1.5) ** 2) * (-1.0 if i % 3 == 1 else 1.0) for i in range(L)]))
     return vs
 
 
@@ -194,6 +197,32 @@ def run_sequence(ctx, real, nfft, vec, seq, sampling=2.0, p=None):
     return changed
 
 
+def run_blind(ctx, real, nfft, vec, seq, last, sampling=2.0):
+    """The same conversions with no read in between: every step assigns p.sides (a refused step is skipped), only the result
+    of the last step is looked at -- through the attribute (last='attr') or through get_converted_psd (last='get')."""
+    p = make_spectrum(real, nfft, vec, sampling)
+    base = np.array(vec, dtype=float)
+    T = model_from_default(base, nfft, real)
+    df = sampling / float(nfft)
+    total = float(np.sum(base))
+    for s in seq[:-1]:
+        try:
+            p.sides = s
+        except (AssertionError, ValueError):
+            pass
+    s = seq[-1]
+    if not real and s == "onesided":
+        return False
+    if last == "get":
+        got = np.array(p.get_converted_psd(s), dtype=float)
+    else:
+        p.sides = s
+        got = np.array(p.psd, dtype=float)
+    check_against_model(ctx, p, got, s, T, nfft, df, total, "%s without intermediate reads, last step via %s"
+                        % ("->".join(seq), "sides" if last == "attr" else "get_converted_psd"))
+    return True
+
+
 def enum_seq(tier):
     for real in (True, False):
         for nfft in range(2, 18):
@@ -202,6 +231,11 @@ def enum_seq(tier):
                     for seq in itertools.product(SIDES, repeat=l):
                         for path in ("attr", "get"):
                             # 'get' path: assignments for all but the last step, get for the last
+                            yield {"real": real, "nfft": nfft, "vec": vname, "seq": list(seq), "path": path}
+                # no read between the steps (a lazily converting implementation is only seen this way): lengths 2 and 3
+                for l in range(2, 4):
+                    for seq in itertools.product(SIDES, repeat=l):
+                        for path in ("blind_attr", "blind_get"):
                             yield {"real": real, "nfft": nfft, "vec": vname, "seq": list(seq), "path": path}
                 # the alias 'default' (native format of the datatype) as a fourth symbol, sequences up to length 3 containing it
                 for l in range(1, 4):
@@ -217,6 +251,11 @@ def c06_seq(ctx, case):
     real, nfft = case["real"], case["nfft"]
     vec = dict(vectors(real, nfft))[case["vec"]]
     seq = case["seq"]
+    if case["path"].startswith("blind"):
+        ok = run_blind(ctx, real, nfft, vec, seq, case["path"][6:])
+        ctx.cls("real" if real else "complex", "even" if nfft % 2 == 0 else "odd", "len%d" % len(seq), case["path"])
+        ctx.nontrivial(ok and len(set(vec)) >= 2)
+        return
     if case["path"] == "attr":
         ops = [["attr", s] for s in seq]
     else:
@@ -244,7 +283,8 @@ def c06_tools(ctx, case):
     ctx.nontrivial(n >= 3)
     sig = {"helper": h, "parity": n % 2}
     dense = np.arange(1, n + 1, dtype=float) ** 2
-    vecs = [np.eye(n)[j] * 7.0 for j in range(n)] + [dense]
+    signed = (np.arange(1, n + 1, dtype=float) + 0.5) ** 2 * np.where(np.arange(n) % 3 == 1, -1.0, 1.0)
+    vecs = [np.eye(n)[j] * 7.0 for j in range(n)] + [dense, signed]
     if h in ("twosided_2_centerdc", "centerdc_2_twosided", "roundtrip_c"):
         r = Range(n, 2.0)
         df = 2.0 / n
@@ -273,8 +313,8 @@ def c06_tools(ctx, case):
     elif h == "twosided_2_onesided":
         # symmetric two-sided vector of a real process, length n
         L = nb1(n)
-        for j in range(L + 1):
-            one = dense[:L].copy() if j == L else np.eye(L)[j] * 6.0
+        for j in range(L + 2):
+            one = signed[:L].copy() if j == L + 1 else (dense[:L].copy() if j == L else np.eye(L)[j] * 6.0)
             T = model_from_default(one, n, True)
             got = np.asarray(tools.twosided_2_onesided(T), dtype=float)
             ctx.check(len(got) == L, "twosided_2_onesided: %d values for a %d-point two-sided vector (expected %d)" % (len(got), n, L), sig=sig)
@@ -286,8 +326,8 @@ def c06_tools(ctx, case):
             ctx.exclude("one-sided vector of length 1")
             return
         nfft = 2 * (L - 1)
-        for j in range(L + 1):
-            one = dense[:L].copy() if j == L else np.eye(L)[j] * 6.0
+        for j in range(L + 2):
+            one = signed[:L].copy() if j == L + 1 else (dense[:L].copy() if j == L else np.eye(L)[j] * 6.0)
             got = np.asarray(tools.onesided_2_twosided(one), dtype=float)
             exp = model_from_default(one, nfft, True)
             ctx.check(len(got) == nfft, "onesided_2_twosided: %d values from %d one-sided values (expected %d)" % (len(got), L, nfft), sig=sig)
@@ -298,8 +338,8 @@ def c06_tools(ctx, case):
         if L < 2:
             ctx.exclude("one-sided vector of length 1")
             return
-        for j in range(L + 1):
-            one = dense[:L].copy() if j == L else np.eye(L)[j] * 6.0
+        for j in range(L + 2):
+            one = signed[:L].copy() if j == L + 1 else (dense[:L].copy() if j == L else np.eye(L)[j] * 6.0)
             got = np.asarray(tools.twosided_2_onesided(tools.onesided_2_twosided(one)), dtype=float)
             ctx.check(np.array_equal(got, one), "twosided_2_onesided(onesided_2_twosided(v)) != v for %s: %s" % (one.tolist()[:9], got.tolist()[:9]), sig=sig)
     else:
